@@ -161,6 +161,20 @@ def _workbooks():
                 {'A1': CIRC, 'B1': CIRC, 'C1': CIRC, 'D1': True}))
     out.append(('cycle-through-a-range', {'B1': '=SUM(@C1:C2)', 'C1': '=@B1', 'C2': 1}, {'B1': CIRC, 'C1': CIRC, 'C2': 1}))
     out.append(('iferror-guard-unselected', {'A1': 4, 'B1': '=IFERROR(@A1,@C1)', 'C1': '=@B1+1'}, {'B1': 4, 'C1': 5}))
+    for g1 in (False, True):
+        for g2 in (False, True):
+            # two guarded back edges into ONE formula, through different inputs
+            cells = {'A1': g1, 'A2': g2, 'B1': '=IF(@A1,@C1,IF(@A2,@D1,7))', 'C1': '=@B1', 'D1': '=@B1*2', 'E1': '=@B1+1'}
+            if not g1 and not g2:
+                want = {'B1': 7, 'C1': 7, 'D1': 14, 'E1': 8}
+            elif g1:
+                want = {'B1': CIRC, 'C1': CIRC, 'D1': ERR, 'E1': ERR}
+            else:
+                want = {'B1': CIRC, 'D1': CIRC, 'C1': ERR, 'E1': ERR}
+            out.append(('two-guarded-back-edges-into-one-formula', cells, want))
+            cells = {'A1': g1, 'A2': g2, 'B1': '=IFERROR(@A1,@C1)+IFNA(@A2,@D1)', 'C1': '=@B1', 'D1': '=@B1*2', 'E1': '=@B1+1'}
+            out.append(('two-error-guards-in-one-formula', cells, {'B1': int(g1) + int(g2), 'C1': int(g1) + int(g2), 'D1': 2 * (int(g1) + int(g2)),
+                                                                  'E1': int(g1) + int(g2) + 1}))
     out.append(('two-independent-cycles', {'A1': '=@B1', 'B1': '=@A1', 'C1': '=@D1', 'D1': '=@C1', 'E1': 1, 'F1': '=@E1+1'},
                 {'A1': CIRC, 'B1': CIRC, 'C1': CIRC, 'D1': CIRC, 'E1': 1, 'F1': 2}))
     return out
@@ -223,13 +237,104 @@ def _check_wb(case):
     return None
 
 
+# ------------------------------------------------------------------------------------ bounded: independence of the hash seed
+def _seed_books():
+    out = [(n, c) for n, c, w in _workbooks()]
+    for g1, g2 in ((True, False), (False, True), (True, True), (False, False)):
+        out.append(('two-guards-on-one-cycle', {'A1': g1, 'A2': g2, 'B1': '=IF(@A1,@C1,1)', 'C1': '=IF(@A2,@B1,2)', 'E1': '=@B1+@C1'}))
+    out.append(('three-guards-on-one-cycle', {'A1': True, 'A2': False, 'A3': True, 'B1': '=IF(@A1,@C1,1)', 'C1': '=IF(@A2,@D1,2)',
+                                              'D1': '=IF(@A3,@B1,3)', 'E1': '=@B1+@C1+@D1'}))
+    out.append(('if-and-iferror-guards-on-one-cycle', {'A1': True, 'A2': 4, 'B1': '=IF(@A1,@C1,1)', 'C1': '=IFERROR(@A2,@B1)', 'E1': '=@B1+@C1'}))
+    out.append(('overlapping-cycles-with-an-error-guard', {'X1': '=@Y1+@Z1', 'Y1': '=@X1', 'N1': '=IFERROR(@X1,5)', 'Z1': '=@N1'}))
+    return out
+
+
+def _seed_outcomes():
+    """{book index: value map as JSON text} of this interpreter (run in child processes with PYTHONHASHSEED set)."""
+    import json
+    import logging
+    import numpy as np
+    import formulas
+    logging.disable(logging.CRITICAL)
+    res = {}
+    for i, (name, cells) in enumerate(_seed_books()):
+        try:
+            m = formulas.ExcelModel().from_dict(_wb(dict(cells)))
+            m.solve_circular()
+            sol = m.calculate()
+            vals = {}
+            for k in cells:
+                v = sol.get(S + k)
+                vals[k] = None if v is None else repr(np.asarray(v.value, object).ravel()[0])
+            res[i] = json.dumps(vals, sort_keys=True)
+        except Exception as ex:
+            res[i] = 'raised %s' % type(ex).__name__
+    return res
+
+
+_SEED_CACHE = {}
+
+
+def _all_seed_outcomes(tier):
+    if tier in _SEED_CACHE:
+        return _SEED_CACHE[tier]
+    import json
+    import os
+    import subprocess
+    import sys
+    import concurrent.futures as cf
+    seeds = list(range(8 if tier == 'quick' else 32))
+    root = os.path.dirname(os.path.dirname(os.path.abspath(__file__)))
+    code = ('import sys, json; sys.path.insert(0, %r); import contracts.c10_cycles as m; '
+            'print("OUT" + json.dumps(m._seed_outcomes()))' % root)
+
+    def run(seed):
+        env = dict(os.environ, PYTHONHASHSEED=str(seed), PYTHONWARNINGS='ignore', PYTHONDONTWRITEBYTECODE='1')
+        p = subprocess.run([sys.executable, '-W', 'ignore', '-c', code], capture_output=True, text=True, timeout=600, env=env)
+        line = [l for l in p.stdout.splitlines() if l.startswith('OUT')]
+        if not line:
+            return seed, {'error': (p.stderr or p.stdout)[-300:]}
+        return seed, json.loads(line[-1][3:])
+    with cf.ThreadPoolExecutor(8) as ex:
+        out = dict(ex.map(run, seeds))
+    _SEED_CACHE[tier] = out
+    return out
+
+
+def _seed_cases(tier, rng):
+    return [('hash-seed', tier, i) for i in range(len(_seed_books()))]
+
+
+def _check_seed(case):
+    _, tier, i = case
+    out = _all_seed_outcomes(tier)
+    name, cells = _seed_books()[i]
+    seen = {}
+    for seed, res in sorted(out.items()):
+        if 'error' in res:
+            return 'child interpreter with PYTHONHASHSEED=%d failed: %s' % (seed, res['error'])
+        seen.setdefault(res[str(i)], []).append(seed)
+    if len(seen) != 1:
+        return '%s %r: the outcome depends on the hash seed: %s' % (name, cells, '; '.join('%s for seeds %s' % (k, v) for k, v in seen.items()))
+    return None
+
+
+def _classify_seed(case, detail):
+    name = _seed_books()[case[2]][0]
+    return None
+
+
 BOUNDED = [
+    Stage('B3:outcome-does-not-depend-on-the-hash-seed', 'C10', _seed_cases, _check_seed,
+          'every workbook of B2 plus cycles with two and three guards of different values, an IF and an IFERROR guard on one cycle and overlapping '
+          'cycles with an error guard, each evaluated in child interpreters with PYTHONHASHSEED 0..7 (quick) / 0..31 (thorough): one outcome per workbook',
+          parallel=False, classify=_classify_seed, case_timeout=900.0),
     Stage('B1:cycle-enumeration-vs-brute-force', 'C10', _graph_cases, _check_graph,
           'every digraph on 1..4 nodes (2 + 16 + 512 + 65 536, exhaustive, self-loops included; every 7th 4-node graph also with a skipped node), '
           'thorough: also every digraph on 5 nodes without self-loops (1 048 576); random digraphs on 5..9 nodes (300 quick / 60000 thorough): simple_cycles reports each elementary cycle exactly once',
           exhaustive=True),
     Stage('B2:small-cyclic-workbooks', 'C10', _wb_cases, _check_wb,
-          '26 small workbooks (guarded / unguarded back edges through IF, IFS, IFERROR, ranges, self references, independent cycles; 5 guard values) '
+          '34 small workbooks (guarded / unguarded back edges through IF, IFS, IFERROR, IFNA, ranges, self references, independent cycles, two guarded back edges into one formula; 5 guard values) '
           'in 2 (quick) / 8 (thorough) cell orders: termination within 20 s, unavoidable cycles are marked, dependents see an error, everything else '
           'keeps its ordinary value', parallel=True),
 ]
